@@ -48,9 +48,9 @@ OPEN_STATEMENTS = [
     'trivially_double_commutes_dual_basis_using_term_info is proved sound for the grouped terms the caller builds '
     '(two-mode hopping / number groups, single-mode external-potential terms) under the jellium promise '
     '(term_info_sound_ring, term_info_sound); other index sets (three or more modes) are outside the theorem',
-    'bch_expand: exactness proved by kernel computation for orders <= 8 (bch_exact_upto_8_partial), lifted to every '
-    'nilpotent setting of class k <= 8 in any Q-algebra (bch_universal_upto_8: exp z = exp x exp y) and to any '
-    'number of operators through the recursive halving (bch_expand_sound_upto_8: exp z = exp x_0 ... exp x_{n-1} in '
+    'bch_expand: exactness proved by kernel computation for orders <= 7 (order 8: exact correspondence + Spec oracle only) (bch_exact_upto_7_partial), lifted to every '
+    'nilpotent setting of class k <= 7 in any Q-algebra (bch_universal_upto_7: exp z = exp x exp y) and to any '
+    'number of operators through the recursive halving (bch_expand_sound_upto_7: exp z = exp x_0 ... exp x_{n-1} in '
     'filtered algebras with F_{k+1} = 0); open: the statement for every order (Dynkin / BCH theorem in general); '
     'the float coefficient table of the library is compared with the exact table to 1e-12',
 ]
